@@ -11,7 +11,8 @@ GROUP = "VM"
 THEOREMS = ["C10_catch_once", "C10_uncaught_stops", "C10_defers_rev_once", "C10_defers_spent",
             "C10_panic_defers_rev_once", "C10_recover_resumes_caller", "C10_old_refuted",
             "C10_failing_defer_skips_rest_old_refuted", "C10_defers_statement_holds",
-            "C10_return_leaves_frame_clean", "C10_return_marker_old_refuted"]
+            "C10_return_leaves_frame_clean", "C10_return_marker_old_refuted",
+            "C10_step_preserves_shape", "C10_catch_preserves_shape", "C10_frame_pop_shape"]
 META = {
     "group": "VM",
     "technique": "Coq proofs over an executable model of the bytecode interpreter's try/catch, defer, panic/recover and "
@@ -32,8 +33,15 @@ META = {
             "documented order (reference function) is compared with the real outputs. Six defects were found and repaired "
             "(a4adb034, b6774d66, 030cc3b3, 74b1e8a2, 4b25dcd5 for C10; the generator now nests loops in try blocks, leaves "
             "try blocks with break/continue and returns from nested try blocks). "
-            "partial: the preservation of the stack-shape invariant by compiled code (hypothesis of C10_catch_once) is "
-            "observed by the correspondence, not proved; selective catch lists, named/multiple results, goroutines and the "
+            "The stack-shape hypothesis of C10_catch_once is shown to be an invariant of the model's own semantics "
+            "(coq/VM/Shape.v): C10_step_preserves_shape (every completing instruction that does not move call frames -- "
+            "arithmetic, load/store, scopes, branches, print, markers, Try/TryPop, Defer, Recover -- plus Call and "
+            "RunDefers), C10_catch_preserves_shape (the context a catch block starts in), C10_frame_pop_shape "
+            "(callFramePop inside a function). "
+            "partial: shape preservation is not yet proved for Return / panic unwinding as whole instructions (only their "
+            "callFramePop core), for Dup, and for instructions that FAIL after popping (a pop from an empty local stack "
+            "removes a call frame in the VM too), and that compiled code keeps a try marker below every live try entry is "
+            "still observed by the correspondence, not proved; selective catch lists, named/multiple results, goroutines and the "
             "symbol-table visibility rules are outside the model",
     "note": "Trusted: Coq kernel; hand-written model coq/VM/Model.v tied to the code by the per-run correspondence; "
             "harness/C10 (dumper + in-package compile/run), lib/vm_util.py (translator dump->Coq, generator, reference).",
